@@ -107,9 +107,8 @@ pub fn memsys_vs_real(ctx : &Ctx, out : &mut Out)
             let (rc, mc) = (real.get_modified("m2").ok(), mem.get_modified("m2").ok());
             if (rb == rc) != (mb == mc) { out.violation("ANY:memsys-differs-from-real-file-system", "mtime behaviour under rewrite differs".to_string(), Json::s("rewrite mtime")); }
         }
-        out.case(String::new(), String::new(), true);
-        out.cases.pop(); out.impls.pop();
         out.nontrivial += 1;
+        out.extra_evaluations += 1;
         std::env::set_current_dir(&old_cwd).expect("chdir back");
     }
     let _ = std::fs::remove_dir_all(&base);
